@@ -257,7 +257,7 @@ func c05InstallMultiboot(secs []c05Section) [][]uint64 {
 func c05Gen(t *rapid.T) c05Case {
 	var c c05Case
 	c.Hi, c.RootFlags = vmGenPhys(t)
-	c.Offset = rapid.SampledFrom([]uint64{0xffff800000000000, 0xffff800000000000, 0xffffc00000000000, 1 << 30, 0x200000}).Draw(t, "offset")
+	c.Offset = rapid.SampledFrom([]uint64{0xffff800000000000, 0xffff800000000000, 0xffffc00000000000, 1 << 30, 0x200000, 0}).Draw(t, "offset")
 	cursor := c.Offset + rapid.SampledFrom([]uint64{0, 0x100000, 0x100000, 0x7ff000}).Draw(t, "load")
 	n := rapid.IntRange(0, 10).Draw(t, "nsections")
 	many := rapid.IntRange(0, 24).Draw(t, "manysections") == 0
@@ -272,7 +272,7 @@ func c05Gen(t *rapid.T) c05Case {
 		total := rapid.SampledFrom([]int{1022, 1023, 1024, 1025, 1100, 2047, 2049}).Draw(t, "nhuge")
 		for i := 0; i < total; i++ {
 			s := c05Section{Name: fmt.Sprintf(".h%d", i), Flags: uint32(i % 8), Size: uint64(1 + (i*37)%4096)}
-			if i%13 == 5 {
+			if i%13 == 5 && c.Offset != 0 {
 				s.Addr = low + 0x32 // below the kernel's range
 				if s.Addr+s.Size > c.Offset {
 					s.Addr, s.Size = 0, 1
@@ -296,7 +296,7 @@ func c05Gen(t *rapid.T) c05Case {
 		} else if rapid.IntRange(0, 3).Draw(t, "big") == 0 {
 			s.Size = uint64(rapid.IntRange(1, 40).Draw(t, "pages"))*4096 - uint64(rapid.SampledFrom([]int{0, 0, 1, 100}).Draw(t, "short"))
 		}
-		if rapid.IntRange(0, 5).Draw(t, "below") == 0 {
+		if rapid.IntRange(0, 5).Draw(t, "below") == 0 && c.Offset != 0 { // (nothing lies below a range that starts at 0)
 			// a section outside the kernel's range (debug info etc.): low address
 			s.Addr = low + uint64(rapid.SampledFrom([]int{0, 0x32, 0x1000}).Draw(t, "lowoff"))
 			if s.Addr >= c.Offset {
